@@ -87,6 +87,8 @@ def sql(e):
         return sql(e[1]) + (" NOT" if e[2] else "") + " BETWEEN " + sql(e[3]) + " AND " + sql(e[4])
     if k == "other":
         return e[1]
+    if k == "subq":
+        return "(SELECT " + e[1] + ")"
     raise ValueError(k)
 
 
@@ -118,6 +120,8 @@ def enc(e):
         return [11, int(e[2])] + enc(e[1]) + enc(e[3]) + enc(e[4])
     if k == "other":
         return [12]
+    if k == "subq":
+        return [13]
     raise ValueError(k)
 
 
@@ -167,6 +171,24 @@ def as_map(fs):
     """the fields of a response as the sdv handler reports them: a map (a repeated name keeps the last value),
     read back sorted by name"""
     return sorted(dict(fs).items())
+
+
+def canon_subquery_refusal(lines, out):
+    """a query with a subquery operand is refused by model and implementation alike, but the KIND of the refusal
+    depends on what else is wrong with it and on the subquery's own text, which the model does not read (an unknown
+    signal inside it is reported as 'subquery failed to compile', an error elsewhere in the condition comes first):
+    for such queries only refused / accepted is compared"""
+    al = split_outputs(lines, out)
+    if al is None:
+        return out
+    res = []
+    for d, o in al:
+        if d["name"] == "SUBQ" and "(SELECT" in d.get("sql", "") and o and o[0][:1] == [1]:
+            res.append([1, 0])
+            res += o[1:]
+        else:
+            res += o
+    return res
 
 
 def canon_sdv(lines, out):
@@ -261,6 +283,16 @@ class QGen:
         l, lt = self.term(NUMERIC)
         if lt is None:
             return ("bin", op, l, num("1"))
+        if valid and r.random() < 0.04:
+            # a subquery as operand: refused (it used to be evaluated as its index among the subqueries, F29)
+            s2 = self.sig(NUMERIC)
+            sub = ("subq", s2[0])
+            c = r.random()
+            if c < 0.5:
+                return ("bin", op, l, sub)
+            if c < 0.75:
+                return ("bin", r.choice(["=", "<>", ">", "<="]), sub, num(str(r.choice([0, 1, 5]))))
+            return ("between", l, r.random() < 0.3, sub, self.literal_for(lt, True))
         c = r.random()
         if c < 0.6:
             rr = self.literal_for(lt, valid)
@@ -573,6 +605,8 @@ def dec_qexpr(t, i):
         lo, j = dec_qexpr(t, j)
         hi, j = dec_qexpr(t, j)
         return ("between", a, bool(t[i + 1]), lo, hi), j
+    if k == 13:
+        return ("subq", "?"), i + 1
     return ("other", "?"), i + 1
 
 
@@ -712,6 +746,9 @@ def typecheck(e, schema):
         if k == "neg":
             typecheck(e[1], schema)
         raise Refuse("outside the subset: " + k)
+    if k == "subq":
+        # a subquery is a set of rows, not a value: as an operand it has no SQL reading in this subset
+        raise Refuse("a subquery used as an operand is outside the subset")
     if k == "not":
         a = typecheck(e[1], schema)
         if tyof(a) != T_BOOL:
